@@ -15,8 +15,7 @@ def footprints(ctx):
         names = sorted({n for c in ci.mro for n, m in c.members.items() if m.kind in ("lazyproperty", "property", "method") and not n.startswith("_")})
         for n in names:
             m = ctx.repo.lookup(ci, n)
-            if m.kind == "method":
-                continue  # parameterised measures (pairwise by column index) are covered by their own rules
+            # parameterised measures (pairwise tests by selected column) are evaluated with an unknown argument
             out[f"{tag}.{n}"] = sorted(measure_blocks_reads(ctx, coll, n))
     return out
 
